@@ -1,19 +1,26 @@
 #!/bin/sh
-# usage: tools/mkmutant.sh <out.patch> <file-relative-to-repo> <python-expr-old> <python-expr-new>
-# Makes a unified diff (a/ b/ prefixes, -p1 from the repo root) replacing exactly one occurrence of OLD by NEW.
+# usage: tools/mkmutant.sh <out.patch> <file-relative-to-repo> <old> <new> [<old2> <new2> ...]
+# Makes a unified diff (a/ b/ prefixes, -p1 from the repo root) replacing exactly one occurrence of each OLD by NEW.
+# \n and \t escapes in OLD/NEW are interpreted.
 set -e
-out="$1"; f="$2"; old="$3"; new="$4"
+out="$1"; f="$2"; shift 2
 tmp=$(mktemp -d /tmp/mkmut.XXXXXX)
 mkdir -p "$tmp/a/$(dirname "$f")" "$tmp/b/$(dirname "$f")"
 cp "/repo/$f" "$tmp/a/$f"
-OLD="$old" NEW="$new" /venv/bin/python - "$tmp/a/$f" "$tmp/b/$f" <<'PY'
-import os, sys
+/venv/bin/python - "$tmp/a/$f" "$tmp/b/$f" "$@" <<'PY'
+import sys
 s = open(sys.argv[1]).read()
-old, new = os.environ["OLD"], os.environ["NEW"]
-old = old.encode().decode("unicode_escape"); new = new.encode().decode("unicode_escape")
-assert s.count(old) == 1, f"OLD occurs {s.count(old)} times"
-open(sys.argv[2], "w").write(s.replace(old, new))
+args = sys.argv[3:]
+assert len(args) % 2 == 0 and args
+for i in range(0, len(args), 2):
+    old = args[i].encode().decode("unicode_escape")
+    new = args[i + 1].encode().decode("unicode_escape")
+    assert s.count(old) == 1, f"OLD #{i // 2 + 1} occurs {s.count(old)} times"
+    s = s.replace(old, new)
+compile(s, sys.argv[2], "exec")
+open(sys.argv[2], "w").write(s)
 PY
-(cd "$tmp" && diff -u "a/$f" "b/$f" > "$OLDPWD/$out") || true
+here=$(pwd)
+(cd "$tmp" && diff -u "a/$f" "b/$f" > "$here/$out") || true
 rm -rf "$tmp"
-/venv/bin/python -c "import ast,sys" && echo "wrote $out: $(grep -c '^[-+][^-+]' $out) changed lines"
+echo "wrote $out"
